@@ -234,7 +234,7 @@ def _isolated(modname: str, shards: list, ctx: Ctx, total: ShardResult, errors: 
 
 
 def load_findings(prop: str) -> list[dict]:
-    p = VERIF_DIR / "known_findings.json"
+    p = Path(os.environ.get("VF_FINDINGS") or (VERIF_DIR / "known_findings.json"))  # override only for self-tests of this mechanism
     if not p.exists():
         return []
     data = json.loads(p.read_text())
